@@ -329,6 +329,18 @@ func applyDefect(r *rand.Rand, c *gen.PI, first bool) (Defect, bool) {
 			// a possibly-valid text must not overwrite the value an earlier, certain defect relies on
 			return d, false
 		}
+		// half of the time the text reaches the parser through meta()
+		if r.IntN(2) == 0 {
+			t := core.Pick(r, []string{"number", "monetary", "portion"})
+			c.Prog.Vars = append(c.Prog.Vars, gen.VarDecl{Type: t, Name: "zz_fzm", Fn: "meta", Args: []gen.Expr{*gen.Acc("a"), *gen.Str("zz_fz_key")}})
+			if c.In.Meta["a"] == nil {
+				c.In.Meta["a"] = map[string]string{}
+			}
+			c.In.Meta["a"]["zz_fz_key"] = fuzzText(r, t)
+			d.Certain = false
+			d.Allowed = []string{"wrong-type", "invalid-portion"}
+			return d, true
+		}
 		vs := plainVars(c, "number", "monetary", "portion")
 		if len(vs) == 0 {
 			// declare one and use it nowhere: parsing happens regardless of use
